@@ -653,7 +653,12 @@ func runOnce(p *Program, keepTrace bool) *Outcome {
 	}
 	out := &Outcome{}
 	if cerr != nil {
-		out.ChildErr = fmt.Sprintf("%v: %s", cerr, tail(stderr.String(), 600))
+		// head and tail: a panic inside sop is classified by the frames of the panicking goroutine (at the head)
+		se := stderr.String()
+		if len(se) > 4200 {
+			se = se[:3600] + "\n…\n" + se[len(se)-600:]
+		}
+		out.ChildErr = fmt.Sprintf("%v: %s", cerr, se)
 		return out
 	}
 	if err := json.Unmarshal(outb, out); err != nil {
